@@ -70,6 +70,10 @@ P = {
    text="PARTIAL claim: only the eligibility guards necessary for 'only to a member subscribed to that topic, no unknown member, no nonexistent partition' are decided (round-robin hasTopic guard; sticky assign/reassign eligibility; prior ownership kept only if the partition exists and the owner still subscribes, otherwise re-queued as unassigned; every member registered and emitted; range builds member lists from subscriptions and plans each topic over its own partition list). Completeness and uniqueness of the plan are algorithmic and NOT decided.",
    note="That every partition is assigned, and to exactly one member, needs reasoning about the algorithm's state (execution or a solver) and is outside this technique family.",
    technique="SSA guard (dominating-predicate) queries and provenance matching"),
+ "C10": dict(claimed=True,
+   text="Decided by abstract interpretation of integer bounds over SSA (lower bound, input-bounded/constant upper bound, bit widths of the target architecture, branch refinement, getter summaries computed from real_decoder.go and trusted only after the paired error test) plus guard/path rules: every raw-buffer access and cursor advance of realDecoder is justified by a still-valid remaining() ≥ need test (bulk loops by remaining() ≥ w·n); every make() reachable from the decoders of untrusted data has a non-negative, input-bounded or small-constant size; response-size cap; whole-buffer-consumed and length/CRC mismatch = error; decode loops make progress.",
+   note="Memory use of decompression, third-party codecs, CRC collision strength and semantic validity of decoded values are not covered. Trusted library contracts: binary.Varint/Uvarint return |n| ≤ len(buf); binary.PutVarint ≤ 10.",
+   technique="abstract interpretation (interval-like domain with symbolic 'input-bounded' bound) over go/ssa + dominating-guard validity analysis"),
  "C01": dict(claimed=True,
    text="Structural necessary conditions of exactly-one-outcome decided on every CFG path of the producer pipeline (emit/Done pairing, no partially disposed batch, marker accounting, exactly-once routing of every partition set, retry budget guards, Wait-before-close, sync-producer expectation protocol). It is not a proof of the behaviour: cross-goroutine liveness of the retry loop is not covered.",
    note="Trusts go/ssa's model of the source; disposer functions are computed as a fixed point from the source, channel/field anchors are named in rules_c01.go.",
